@@ -458,11 +458,27 @@ thread_local! {
     static CONNS: std::cell::RefCell<Vec<(TcpStream, TcpStream)>> = const { std::cell::RefCell::new(Vec::new()) };
 }
 
+/// bind(127.0.0.1:0) with real-time retries: when other checks running on the machine have
+/// momentarily used up the ephemeral ports (TIME_WAIT), wait instead of failing the case.
+fn bind_loopback_retry() -> std::net::TcpListener {
+    let t0 = std::time::Instant::now();
+    loop {
+        match std::net::TcpListener::bind("127.0.0.1:0") {
+            Ok(l) => return l,
+            Err(e) if t0.elapsed() < std::time::Duration::from_secs(120) => {
+                let _ = e;
+                std::thread::sleep(std::time::Duration::from_millis(250));
+            }
+            Err(e) => panic!("bind loopback: {e}"),
+        }
+    }
+}
+
 async fn conn_pair() -> (TcpStream, TcpStream) {
     if let Some(p) = CONNS.with(|c| c.borrow_mut().pop()) {
         return p;
     }
-    let listener = tokio::net::TcpListener::bind("127.0.0.1:0").await.unwrap();
+    let listener = { let l = bind_loopback_retry(); l.set_nonblocking(true).unwrap(); tokio::net::TcpListener::from_std(l).unwrap() };
     let laddr = listener.local_addr().unwrap();
     let (client, server) = tokio::join!(TcpStream::connect(laddr), listener.accept());
     (server.unwrap().0, client.unwrap())
